@@ -26,7 +26,8 @@ PROPS = {
                      "a RequestedAuthnContext with zero Contexts serialises without AuthnContextClassRef, which the schema does not allow (stated in C15_schema_order)"],
     ),
     "C13": dict(
-        model_files=BUILD_MODEL + ["Keys", "GenPrelude", "GenFuncs", "GenPreludeB", "GenBuild", "GenPreludeSign", "GenSign", "P_GenSign"],
+        model_files=BUILD_MODEL + ["Keys", "GenPrelude", "GenFuncs", "GenPreludeB", "GenBuild", "GenPreludeSign", "GenSign", "P_GenSign",
+                                   "Schema", "Types", "Decode", "Response", "Dsig"],
         trusted_base=[KERNEL, GEN, HARNESS, _ETREE,
                       "gen/unit_Sign.go: binding table of the translated SigningContext / Sign{AuthnRequest,LogoutRequest,LogoutResponse} / Build*Document wrappers / BuildAuthRequest "
                       "(receiver = GenPreludeSign.sign_cfg: Build.bcfg, Keys.keycfg and the cached context; *dsig.SigningContext = dctx with Keys.sign_ctx as key part; dsig.NewSigningContext / "
@@ -41,9 +42,29 @@ PROPS = {
                       "getCerts, the identifier tables of xml_constants.go, the element ConstructSignature returns, etreeutils.TransformExcC14n with SortedAttrs "
                       "(insertion sort: at most 12 attributes per element; the SortedAttrs case of two prefixed attributes with equal keys is approximated, the builders create none)",
                       "oracles (inputs of the model, read back from the implementation's output): base64 DigestValue and SignatureValue, or the error of the key store / signer",
-                      "goxmldsig ValidationContext.Validate and crypto/rsa, crypto/ecdsa (used by the harness as the verifier), crypto/x509 certificate creation for the test keys"],
-        assumptions=["NOT proved: that the produced signature verifies after serialisation and re-parsing (needs models of the canonicalisers and of the parser); it is checked on every "
-                     "generated case by real goxmldsig verification against exactly the certificate of the designated key slot",
+                      "goxmldsig ValidationContext.Validate and crypto/rsa, crypto/ecdsa (used by the harness as the verifier), crypto/x509 certificate creation for the test keys",
+                      "C13_sign_verify_*: the VERIFIER is the hand-written model Dsig.v of goxmldsig v1.5.0 ValidationContext.Validate (findSignature with the in-place replacement of SignedInfo, "
+                      "NSDetatch + sort, canonicalPrep / TransformExcC14n at tree level, NSUnmarshalElement through the Schema.v interpreter of the types.Signature struct tags, verifyCertificate, "
+                      "validateSignature, transform), tied to the real library by the DSIG / C02 correspondence runs; P_SignVerify.v composes it with Build.construct_signature / sign_placement",
+                      "C13_sign_verify_* oracles (universally quantified): canon (Canonicalizer.Canonicalize of the signer AND of the verifier: the same oracle, asked with the algorithm each side "
+                      "selects), digest, sig_ok, parse_cert, reparse, and sign (the crypto.Signer). LAWS assumed of them, premises of each theorem: "
+                      "(1) forall m b, sig_ok crt m b (sign key m b) = true -- the SP's key and the embedded certificate are a pair and signing is correct; "
+                      "(2) forall m b, sign key m b <> \"\" -- signatures are not empty; (3) parse_cert der = Some crt -- x509.ParseCertificate of the embedded bytes; "
+                      "(4) forall alg b d, digest alg b = Some d -> 20 <= length d. The parser/serialiser round trip is assumed at exactly two byte strings: reparse (canonical SignedInfo bytes) = "
+                      "the tree the verifier prepared (canonicalPrep / TransformExcC14n of the detached SignedInfo), and reparse (canonical message bytes) = Some v, v being what the theorem says is returned"],
+        assumptions=["'verifies' is proved at TREE level (C13_sign_verify_accepts / _digest_decides / _tampered_digest_rejected / _reads_declared): the signed tree fed to the model of goxmldsig's "
+                     "Validate is accepted, returning the re-parse of the canonical bytes of the message without its signature, under the four oracle laws and the two round-trip instances listed in the "
+                     "trusted base. NOT proved: the byte level in between (etree's writer followed by the recipient's parser gives back the tree: C15_scan_write_tokens + etree's parser as an oracle), "
+                     "and the canonicalisers' bytes themselves (oracle canon); both are checked on every generated case by real goxmldsig verification against exactly the certificate of the designated key slot",
+                     "C13_sign_verify_* premises: the element is signable (first child an element whose subtree resolves its prefixes and holds no ds:Signature, at most 990 elements; the root is not "
+                     "ds:Signature and carries exactly the SAML name-space declarations samlp+saml / saml+samlp / samlp -- what the builders produce before and after exc-c14n -- and any other attributes; "
+                     "the first un-prefixed ID attribute is the first attribute named ID and has no U+000D: C13_sign_verify_cr_in_id_refuted); proved of all three builders for every configuration, "
+                     "canonicaliser and U+000D-free request id (C13_sign_verify_builders_signable); the canonicaliser identifier is one of the six goxmldsig's verifier knows "
+                     "(C13_sign_verify_unknown_canonicaliser_refuted) and names the canonicaliser the signer ran (false for an exclusive canonicaliser with a non-empty prefix list: "
+                     "C13_sign_verify_exc_prefix_list_refuted = known finding exc-prefix-list); KeyInfo carries exactly ONE certificate (a field key store implementing X509ChainStore with a longer chain is "
+                     "not covered), non-empty, inside its validity window at the verifier's clock; the verifier's store is that certificate",
+                     "C13_sign_verify_*: SignatureValue is taken to be a signature over canon of SignedInfo AS THE VERIFIER PREPARES IT (si_detached + si_prep); that the signer's own "
+                     "NSDetatch + Canonicalize of SignedInfo produces the same bytes (c14n 1.0 is prepared like c14n 1.1 by the verifier) is part of the canon oracle / correspondence run, not proved",
                      "known finding F8 (cr-in-config): a configuration string containing U+000D breaks verification after re-parsing",
                      "known finding F10 (exc-prefix-list): an exclusive canonicaliser built with a non-empty prefix list signs with it but goxmldsig never declares the list; no verifier can verify",
                      "C13_embedded_cert_is_reported_cert assumes that a field key store implementing X509ChainStore returns a chain starting with its GetKeyPair certificate (true of dsig.TLSCertKeyStore)",
